@@ -16,6 +16,8 @@ import (
 	"strings"
 
 	"github.com/zclconf/go-cty/cty"
+	"github.com/zclconf/go-cty/cty/convert"
+	"github.com/zclconf/go-cty/cty/function/stdlib"
 )
 
 type c20d1obs struct {
@@ -166,6 +168,42 @@ func c20d1(ctx *Ctx) {
 					})
 			}
 		}
+	}
+	// ---- conversions and stdlib calls must not change the TYPE of an existing value: tuple types whose element types
+	// mix tuples and lists that unify to a list (convert / setproduct hand Type.TupleElementTypes() to unify; a seeded
+	// change let unifyTuplesAsList substitute the unified list type into that slice and restore it only on failure)
+	{
+		mk := func() cty.Value {
+			return cty.TupleVal([]cty.Value{cty.TupleVal([]cty.Value{str("a"), str("b")}), cty.ListVal([]cty.Value{str("c")})})
+		}
+		for _, target := range []cty.Type{cty.List(cty.DynamicPseudoType), cty.Set(cty.DynamicPseudoType)} {
+			target := target
+			c20d1run(ctx, "Convert a tuple of (tuple, list) to "+target.FriendlyName()+": the tuple type must stay what it was",
+				"v := TupleVal{TupleVal{\"a\",\"b\"}, ListVal{\"c\"}}; convert.Convert(v, "+target.GoString()+"); convert.Convert(UnknownVal(v.Type()), …); v.Type()", "",
+				func(o *c20d1obs) func() {
+					v := mk()
+					w := cty.UnknownVal(v.Type())
+					o.vals = append(o.vals, v, w)
+					o.tys = append(o.tys, v.Type())
+					return func() {
+						try(func() { convert.Convert(v, target) })
+						try(func() { convert.Convert(w, target) })
+						try(func() { convert.Convert(cty.NullVal(v.Type()), target) })
+						try(func() { convert.GetConversionUnsafe(v.Type(), target) })
+					}
+				})
+		}
+		c20d1run(ctx, "setproduct with a tuple of (tuple, list): the argument's type must stay what it was",
+			"v := TupleVal{TupleVal{\"a\",\"b\"}, ListVal{\"c\"}}; stdlib.SetProduct(v, v)", "",
+			func(o *c20d1obs) func() {
+				v := mk()
+				o.vals = append(o.vals, v)
+				o.tys = append(o.tys, v.Type())
+				return func() {
+					try(func() { stdlib.SetProduct(v, cty.ListVal([]cty.Value{str("x")})) })
+					try(func() { stdlib.SetProductFunc.ReturnType([]cty.Type{v.Type(), v.Type()}) })
+				}
+			})
 	}
 	// ---- marks with paths
 	c20d1run(ctx, "UnmarkDeepWithPaths: write the mark sets and paths it returns",
